@@ -56,10 +56,11 @@ def random_grid(rng):
 
 
 def random_window(rng, grid):
-    ws = rng.choice((0.25, 0.5, 1.0, 1.0, 2.0, 3.0))
+    ws = rng.choice((0.25, 0.5, 1.0, 1.0, 2.0, 3.0, 0.1, 0.2, 0.4))
     lo = ws * math.floor(rng.uniform(0, 5) / ws)
     hi = ws * math.ceil(rng.uniform(6, 14) / ws)
-    return (lo, hi, ws)
+    # decimal end points such as 0.6 or 7.6 are what a user types; round away the binary noise
+    return (round(lo, 6), round(hi, 6), ws)
 
 
 def check_linkage(mol, rec, rng, viol, counts):
